@@ -15,6 +15,7 @@
 import ILV.Lemmas.Engine
 import ILV.Lemmas.Spec
 import ILV.Lemmas.Faithful
+import ILV.Lemmas.LeastModel
 import ILV.Drv.C01
 namespace ILV.Props.C01
 open ILV ILV.DL ILV.Engine
@@ -150,6 +151,51 @@ example : inFragment joinFilter joinFilterDb = true ∧ joinFilter.all filterRul
     (Engine.run allOff noHash anyOrd 8 wildPair wildDb).toWire = "i64:1,i64:1;i64:1,i64:3;i64:3,i64:3" := by
   decide
 
+/-- **C01 with self-recursive heads.** Aggregate-free programs whose only dependency cycles are
+    self-loops (`inFragmentRec`: decidable, computed with the code's own `topoOrder`), clauses
+    evaluated faithfully. Termination is an explicit hypothesis in the form "the run answers": the
+    engine's fix-point loop has returned within its fuel (for arithmetic-free recursive clauses the
+    iterates live in the finite set of tuples over the active domain, so some fuel suffices; that
+    bound is not formalised). Then the answer is the query relation of `pmEval`'s stratified least
+    model. Proof: `lfpSelf_least` (Kleene iterate from ∅ = least closed set, by monotonicity),
+    `execLoop_least`, `pmEval_least` (the Spec's run is below every closed database, stratum by
+    stratum), `engine_eq_pm`. -/
+theorem C01_partial_rec (p : Program) (edb : DB) (hash : Tuple → Nat) (ord : String → List Tuple → List Tuple)
+    (fuel fuel' : Nat) (A : List Tuple) (acc M : DB)
+    (hfrag : inFragmentRec p edb = true) (hcf : ClauseFaithful p)
+    (hrun : Engine.run allOff hash ord fuel p edb = .ok A acc)
+    (hpm : pmEval fuel' p edb = some M) :
+    MemEq A (M.get (queryRel p)) := by
+  obtain ⟨hdep, hheads, hall, hno, hagg, hlastq⟩ := inFragmentRec_parts hfrag
+  obtain ⟨hleast, hnon, hA⟩ := run_least p edb hash ord fuel A acc hfrag hcf (neg_not_self hpm hagg) hrun
+  have hq : queryRel p ∈ heads p := hheads _ (List.mem_of_getLast? hlastq)
+  have := engine_eq_pm p edb M fuel' hpm (lkOf edb acc) (execOrder p) hagg hno hnon hdep hheads hall hleast _ hq
+  rw [hA] at this
+  exact this
+
+/-- all hypotheses decidable: filter rules. -/
+theorem C01_partial_rec_filter (p : Program) (edb : DB) (hash : Tuple → Nat) (ord : String → List Tuple → List Tuple)
+    (fuel fuel' : Nat) (A : List Tuple) (acc M : DB)
+    (hfrag : inFragmentRec p edb = true) (hfilter : p.all filterRule = true)
+    (hrun : Engine.run allOff hash ord fuel p edb = .ok A acc)
+    (hpm : pmEval fuel' p edb = some M) :
+    MemEq A (M.get (queryRel p)) :=
+  C01_partial_rec p edb hash ord fuel fuel' A acc M hfrag (clauseFaithful_of_filter p hfilter) hrun hpm
+
+/-- transitive closure over a 3-cycle (9 tuples), a head negating it, a comparison: the hypotheses
+    of `C01_partial_rec_filter` hold, the recursive head is executed as a fix-point. -/
+def tcProg : Program := [
+  { hrel := "t", hargs := [.var "X", .var "Z"], body := [a2 "t" "X" "Y", a2 "e" "Y" "Z"] },
+  { hrel := "t", hargs := [.var "X", .var "Y"], body := [a2 "e" "X" "Y"] },
+  { hrel := "u", hargs := [.var "X", .var "Y"], body := [a1 "n" "X", a1 "n" "Y", .neg ⟨"t", [.var "X", .var "Y"]⟩, .cmp .lt (.var "X") (.var "Y")] },
+  { hrel := "q", hargs := [.var "X", .var "Y"], body := [a2 "u" "X" "Y"] } ]
+def tcDb : DB := [("e", [[.i64 0, .i64 1], [.i64 1, .i64 2], [.i64 2, .i64 0]]), ("n", [[.i64 0], [.i64 1], [.i64 5]])]
+
+example : inFragmentRec tcProg tcDb = true ∧ tcProg.all filterRule = true ∧ selfRec tcProg "t" = true ∧
+    (Engine.run allOff noHash anyOrd 8 tcProg tcDb).toWire = "i64:0,i64:5;i64:1,i64:5" ∧
+    (pmEval 8 tcProg tcDb).map (fun m => (relToWire (m.get "q"), (m.get "t").length)) = some ("i64:0,i64:5;i64:1,i64:5", 9) := by
+  decide
+
 /-- The Spec's executable clause meaning is sound for the declarative one: every tuple derived by
     `evalRuleLk` (aggregate-free rule without comparison literals) is the head instance of a
     valuation that maps every positive atom onto a stored tuple and no negated atom onto any. -/
@@ -157,6 +203,17 @@ theorem spec_clause_sound (lk : String → List Tuple) (r : Rule) (hagg : r.hasA
     (ts : List Tuple) (h : evalRuleLk lk r = some ts) (t : Tuple) (ht : t ∈ ts) :
     ∃ env, BodySat lk r env ∧ HeadInst r env t :=
   evalRuleLk_sound lk r hagg hc ts h t ht
+
+/-- … and complete: for a range-restricted rule every head instance of a valuation satisfying the
+    body declaratively (`BodySat`) is derived by `evalRuleLk`. Together with `spec_clause_sound`:
+    for aggregate-free rules without comparison literals, `t ∈ evalRuleLk lk r` ⇔ `t` is the head
+    instance of a satisfying valuation. -/
+theorem spec_clause_complete (lk : String → List Tuple) (r : Rule) (hagg : r.hasAgg = false) (hc : r.cmps = [])
+    (hsafeH : ∀ x, x ∈ r.hargs.flatMap HTerm.vars → x ∈ r.posVars)
+    (hsafeN : ∀ a, a ∈ r.negAtoms → ∀ x, Term.var x ∈ a.args → x ∈ r.posVars)
+    (ts : List Tuple) (hev : evalRuleLk lk r = some ts)
+    (env : Env) (hsat : BodySat lk r env) (t : Tuple) (hhead : HeadInst r env t) : t ∈ ts :=
+  evalRuleLk_complete lk r hagg hc hsafeH hsafeN ts hev env hsat t hhead
 
 /-- A three-head chain with a join, a negation over a derived head and a constant, written in an
     order in which the code's topological sort has to move heads (`b` is defined before `a`). -/
